@@ -1,7 +1,241 @@
-/- line-protocol handler for model "server" (stub until its model is built) -/
+/- line-protocol handler for model "server" (C08): reset / recycle / parse-into-recycled-object
+   cases of harness/inproc/h_reset.c and connection-level cases of the end-to-end stream -/
+import LtVerif.Model.Server
+import Driver.H1
 namespace Driver
+open LtVerif LtVerif.B LtVerif.Req
+
+/-- the skeleton of h_reset.c -/
+def srvEnv : SrvEnv :=
+  { nPlugins := 2, nContexts := 4,
+    defaults := { parseopts := 9567, maxRequestFieldSize := 8192, maxKeepAliveRequests := 100,
+                  docRoot := ofString "/docroot", serverTag := ofString "ltv" } }
+
+def bufStr (b : Buf) : String := match b with | none => "U" | some v => toHex v
+
+def hlistStr (a : HList) (lc : Bool) : String :=
+  if a.isEmpty then "-" else
+  String.intercalate "," (a.map fun e => toHex (if lc then e.2.1.map toLower else e.2.1) ++ ":" ++ toHex e.2.2)
+
+def bitsStr (s : List HId) : String :=
+  if s.isEmpty then "-" else String.intercalate "," (s.map toString)
+
+def cqStr (q : Cq) : String := s!"{q.data.length}:{q.bytesIn}:{q.bytesOut}"
+
+def b01 (b : Bool) : String := if b then "1" else "0"
+
+def dumpReq (e : SrvEnv) (s : ReqSt) (rc : String) : String :=
+  let confDef := ({ s.conf with parseopts := e.defaults.parseopts,
+                                maxRequestFieldSize := e.defaults.maxRequestFieldSize,
+                                streamRequestBody := e.defaults.streamRequestBody } == e.defaults)
+  let sn := match s.serverName with
+            | .authority => "auth" | .nameBuf => "buf" | .conf => "other" | .h2r _ => "h2r"
+  s!"state={s.state} st={s.httpStatus} x={s.x0}:{s.x1}:{s.x2} m={s.method} v={s.version} hm={b01 s.handlerModule}" ++
+  " pctx=" ++ String.join (s.pluginCtx.map fun c => b01 c.isSome) ++
+  s!" con=1 civ={s.conValid} cc=" ++ String.intercalate "," (s.condCache.map fun c => s!"{c.result}:{c.localResult}") ++
+  s!" conf={if confDef then "def" else "mod"} po={s.conf.parseopts} mrfs={s.conf.maxRequestFieldSize} srb={s.conf.streamRequestBody}" ++
+  s!" qhl={s.rqstHeaderLen} qht={bitsStr s.rqstHtags} qh={hlistStr s.rqstHeaders true}" ++
+  s!" usch={bufStr s.uriScheme} uauth={bufStr s.uriAuthority} upath={bufStr s.uriPath} uq={bufStr s.uriQuery}" ++
+  s!" pp={bufStr s.physPath} pb={bufStr s.physBasedir} pd={bufStr s.physDocRoot} pr={bufStr s.physRelPath}" ++
+  s!" env={hlistStr s.env false} rbl={s.reqbodyLength} sp={s.respBodyScratchpad}" ++
+  " host=" ++ (match s.httpHost with | some h => toHex h | none => "none") ++
+  s!" sn={sn} tgt={bufStr s.target} to={bufStr s.targetOrig} pi={bufStr s.pathinfo} snb={bufStr s.serverNameBuf}" ++
+  s!" rhl={s.respHeaderLen} rht={bitsStr s.respHtags} rh={hlistStr s.respHeaders false}" ++
+  s!" fin={b01 s.respBodyFinished} started={b01 s.respBodyStarted} chunked={b01 s.respSendChunked}" ++
+  s!" dechunk={b01 s.respDecodeChunked} rep={b01 s.respHeaderRepeated} loops={s.loopsPerRequest} ka={s.keepAlive}" ++
+  s!" async={b01 s.asyncCallback} tmp=1 gw={b01 s.gwDechunk} ehs={s.errorHandlerSavedStatus}" ++
+  s!" wq={cqStr s.writeQueue} rdq={cqStr s.readQueue} bq={cqStr s.reqbodyQueue} cap=2 ext={b01 s.h2ConnectExt} rc={rc}"
+
+/-- "khex:vhex,khex:vhex" -/
+def kvList (t : String) : Option (List (Bytes × Bytes)) :=
+  if t = "-" then some [] else
+  (t.splitOn ",").mapM fun e =>
+    match e.splitOn ":" with
+    | [k, v] => match ofHex k, ofHex v with
+                | some kb, some vb => some (kb, vb)
+                | _, _ => none
+    | _ => none
+
+def splitEq (t : String) : Option (String × String) :=
+  match t.splitOn "=" with
+  | k :: rest@(_ :: _) => some (k, String.intercalate "=" rest)
+  | _ => none
+
+structure World where
+  r : ReqSt
+  h2r : ReqSt
+  skip : Bool := false      -- dirtying request head was rejected
+
+def setPhys (s : ReqSt) (v : Bytes) : ReqSt := { s with physPath := some v, physPathPtr := true }
+
+/-- one spec token of h_reset.c; `strict` = a rejected dirtying head makes the case "skip" -/
+def applySpec (w : World) (tok : String) : Option World :=
+  match splitEq tok with
+  | none => none
+  | some (k, v) =>
+    let r := w.r
+    let setR (r' : ReqSt) : Option World := some { w with r := r' }
+    let num := v.toInt?
+    let bytes := ofHex v
+    match k with
+    | "parse1" | "parse2" =>
+      match v.splitOn ":" with
+      | o :: rest@(_ :: _) =>
+        match o.toNat? with
+        | none => none
+        | some on =>
+          let arg := String.intercalate ":" rest
+          let r1 := { r with conf := { r.conf with parseopts := on } }
+          let res : Option IntoRes :=
+            if k = "parse1" then (ofHex arg).map (parseIntoH1 r1)
+            else (kvList arg).map fun fs => parseIntoH2 { r1 with version := 2 } fs true
+          match res with
+          | some (.done r2) => some { w with r := r2, skip := w.skip || r2.httpStatus ≠ 0 }
+          | some _ =>
+            -- not a complete head: the harness records 400
+            some { w with r := { r1 with httpStatus := 400, keepAlive := 0 }, skip := true }
+          | none => none
+      | _ => none
+    | "m" => num.bind fun n => setR { r with method := n }
+    | "v" => num.bind fun n => setR { r with version := n }
+    | "st" => num.bind fun n => setR { r with httpStatus := n }
+    | "state" => num.bind fun n => setR { r with state := n.toNat }
+    | "hm" => num.bind fun n => setR { r with handlerModule := n ≠ 0 }
+    | "uc" => setR { r with pluginCtx := (List.range r.pluginCtx.length).map fun i =>
+                                           if i = 0 then r.pluginCtx.getD 0 none else some [] }
+    | "qh" => (kvList v).bind fun l => setR (l.foldl (fun s kv => rqstSet s (hid (kv.1.map toLower)) kv.1 kv.2) r)
+    | "host" => bytes.bind fun b =>
+        let s := rqstSet r idHost (ofString "Host") b
+        setR { s with httpHost := rqstGet s idHost (ofString "Host") }
+    | "rbl" => num.bind fun n => setR { r with reqbodyLength := n }
+    | "qhl" => num.bind fun n => setR { r with rqstHeaderLen := n.toNat }
+    | "tgt" => bytes.bind fun b => setR { r with target := some b }
+    | "to" => bytes.bind fun b => setR { r with targetOrig := some b }
+    | "usch" => bytes.bind fun b => setR { r with uriScheme := some b }
+    | "uauth" => bytes.bind fun b => setR { r with uriAuthority := some b }
+    | "upath" => bytes.bind fun b => setR { r with uriPath := some b }
+    | "uq" => bytes.bind fun b => setR { r with uriQuery := some b }
+    | "pp" => bytes.bind fun b => setR (setPhys r b)
+    | "pbig" => setR { r with physPath := some (r.physPath.getD (ofString "/big")), physPathPtr := true,
+                              physPathBig := true }
+    | "pb" => bytes.bind fun b => setR { r with physBasedir := some b }
+    | "pd" => bytes.bind fun b => setR { r with physDocRoot := some b }
+    | "pr" => bytes.bind fun b => setR { r with physRelPath := some b }
+    | "pi" => bytes.bind fun b => setR { r with pathinfo := some b }
+    | "snb" => bytes.bind fun b => setR { r with serverNameBuf := some b }
+    | "sn" => setR { r with serverName := if v = "buf" then .nameBuf else .authority }
+    | "env" => (kvList v).bind fun l => setR (l.foldl (fun s kv => envSet s kv.1 kv.2) r)
+    | "rh" => (kvList v).bind fun l => setR (l.foldl (fun s kv => respSet s (hid (kv.1.map toLower)) kv.1 kv.2) r)
+    | "rhi" => (kvList v).bind fun l => setR (l.foldl (fun s kv => respInsert s (hid (kv.1.map toLower)) kv.1 kv.2) r)
+    | "wq" => bytes.bind fun b => setR { r with writeQueue := r.writeQueue.append b }
+    | "bq" => bytes.bind fun b => setR { r with reqbodyQueue := r.reqbodyQueue.append b }
+    | "rdq" => bytes.bind fun b => setR { r with readQueue := r.readQueue.append b }
+    | "fin" => num.bind fun n => setR { r with respBodyFinished := n ≠ 0 }
+    | "started" => num.bind fun n => setR { r with respBodyStarted := n ≠ 0 }
+    | "chunked" => num.bind fun n => setR { r with respSendChunked := n ≠ 0 }
+    | "dechunk" => num.bind fun n => setR { r with respDecodeChunked := n ≠ 0 }
+    | "rep" => num.bind fun n => setR { r with respHeaderRepeated := n ≠ 0 }
+    | "gw" => setR { r with gwDechunk := true }
+    | "loops" => num.bind fun n => setR { r with loopsPerRequest := n.toNat }
+    | "ka" => num.bind fun n => setR { r with keepAlive := n }
+    | "async" => num.bind fun n => setR { r with asyncCallback := n ≠ 0 }
+    | "ehs" => num.bind fun n => setR { r with errorHandlerSavedStatus := n }
+    | "ehm" => num.bind fun n => setR { r with errorHandlerSavedMethod := n }
+    | "ext" => num.bind fun n => setR { r with h2ConnectExt := n ≠ 0 }
+    | "sp" => num.bind fun n => setR { r with respBodyScratchpad := n }
+    | "rhl" => num.bind fun n => setR { r with respHeaderLen := n.toNat }
+    | "tec" => num.bind fun n => setR { r with x2 := n }
+    | "civ" => num.bind fun n => setR { r with conValid := n.toNat }
+    | "cc" | "h2r.cc" =>
+      match (v.splitOn ":").map String.toInt? with
+      | [some i, some a, some b] =>
+        let upd (s : ReqSt) : ReqSt :=
+          if i ≥ 0 ∧ i.toNat < s.condCache.length then
+            { s with condCache := s.condCache.set i.toNat { result := a, localResult := b } } else s
+        if k = "cc" then setR (upd r) else some { w with h2r := upd w.h2r }
+      | _ => none
+    | "po" => num.bind fun n => setR { r with conf := { r.conf with parseopts := n.toNat } }
+    | "mrfs" => num.bind fun n => setR { r with conf := { r.conf with maxRequestFieldSize := n.toNat } }
+    | "srb" => num.bind fun n => setR { r with conf := { r.conf with streamRequestBody := n.toNat } }
+    | "h2r.po" => num.bind fun n => some { w with h2r := { w.h2r with conf := { w.h2r.conf with parseopts := n.toNat } } }
+    | "h2r.civ" => num.bind fun n => some { w with h2r := { w.h2r with conValid := n.toNat } }
+    | "h2r.sn" => some { w with h2r := { w.h2r with serverNameBuf := some (ofString "sni"), serverName := .nameBuf } }
+    | _ => none
+
+def isPooled (op : String) : Bool := op = "release" || op = "h2init"
+
+def runOp (op : String) (w : World) : Option ReqSt :=
+  let e := srvEnv
+  match op with
+  | "none" => some w.r
+  | "reset" | "conreset" => some (requestReset hdrIds e w.r)
+  | "ex" => some (requestResetEx w.r)
+  | "resetex" => some (requestResetEx (requestReset hdrIds e w.r))
+  | "respreset" => some (responseReset hdrIds w.r)
+  | "bodyclear0" => some (bodyClear hdrIds w.r false)
+  | "bodyclear1" => some (bodyClear hdrIds w.r true)
+  | "release" => some (requestRelease hdrIds e w.r)
+  | "h2init" => some (h2InitStream w.h2r 65535 (requestRelease hdrIds e w.r))
+  | _ => none
+
+def opResets (op : String) : Bool := op ∈ ["reset", "conreset", "resetex", "release", "h2init"]
+
+def freshWorld : World := { r := ReqSt.init srvEnv, h2r := ReqSt.init srvEnv }
+
+/-- the parsed-request line of h_reset.c (print_parsed) -/
+def parsedStr (s : ReqSt) : String :=
+  if s.httpStatus ≠ 0 then
+    s!"err {s.httpStatus}" ++ (if s.keepAlive ≠ 0 || s.reqbodyLength ≠ 0 then " NOT-CLOSED" else "")
+  else
+    "ok v" ++ toString s.version ++ " ka" ++ (if s.keepAlive ≠ 0 then "1" else "0") ++
+    " m=" ++ toHex (methodName s.method) ++ " t=" ++ toHex s.target.bytes ++ " p=" ++ toHex s.uriPath.bytes ++
+    " q=" ++ toHex s.uriQuery.bytes ++ " h=" ++ (match s.httpHost with | some h => toHex h | none => "none") ++
+    " len=" ++ toString s.reqbodyLength ++
+    " hdrs=" ++ hdrsCanon (s.rqstHeaders.map fun e => (e.2.1.map toLower, e.2.2)) ++
+    " to=" ++ toHex s.targetOrig.bytes ++ " a=" ++ toHex s.uriAuthority.bytes ++ " s=" ++ toHex s.uriScheme.bytes ++
+    " ht=" ++ bitsStr s.rqstHtags ++ " ext=" ++ b01 s.h2ConnectExt
+
+def parseProbe (h2 : Bool) (opts : Nat) (s : ReqSt) (probe : String) : Option String :=
+  let s := { s with conf := { s.conf with parseopts := opts } }
+  if h2 then
+    (kvList probe).map fun fs =>
+      match parseIntoH2 { s with version := 2 } fs true with
+      | .done r => parsedStr r
+      | .skipV6 => "skip-v6"
+      | _ => "err 400"
+  else
+    (ofHex probe).map fun b =>
+      match parseIntoH1 s b with
+      | .done r => parsedStr r
+      | .skipV6 => "skip-v6"
+      | _ => "err 400"
 
 def serverLine : List String → String
+  | "rst" :: op :: specs =>
+    match specs.foldlM applySpec freshWorld with
+    | none => "bad-op"
+    | some w =>
+      if w.skip then "skip" else
+      match runOp op w with
+      | none => "bad-op"
+      | some r => (if isPooled op then "same=1 " else "") ++ dumpReq srvEnv r (if opResets op then "11" else "00")
+  | "rp" :: proto :: opts :: op :: rest =>
+    match opts.toNat?, rest.span (· ≠ ";") with
+    | some o, (specs, [_, probe]) =>
+      let h2 := proto = "h2"
+      -- A: fresh object (for h2init: the first stream of a fresh connection)
+      let a0 : ReqSt := if op = "h2init" then h2InitStream freshWorld.h2r 65535 (requestRelease hdrIds srvEnv freshWorld.r)
+                        else freshWorld.r
+      match parseProbe h2 o a0 probe, specs.foldlM applySpec freshWorld with
+      | some a, some w =>
+        match runOp op w with
+        | some r =>
+          match parseProbe h2 o r probe with
+          | some b => a ++ " | " ++ b
+          | none => "bad-op"
+        | none => a ++ " | bad-op"
+      | _, _ => "bad-op"
+    | _, _ => "bad-op"
   | _ => "bad-op"
 
 end Driver
